@@ -16,7 +16,8 @@ TIERS = {"quick": {"runs": 1500, "budget_s": 75, "chunk": 10, "min_runs": 60},
          "thorough": {"runs": 200000, "budget_s": 1500, "chunk": 20, "min_runs": 1000}}
 RULE = ("case = seeded (definition set biased to expression-length arrays, bit-fields, unions, pointers, enums; config; 2-4 "
         "threads each with its own accepted input and script parse/dumps/deref on the SHARED type objects); per case a set "
-        "of schedules: PCT-style 1-3 pre-emptions at uniformly drawn global library-line steps plus a sweep window placing one pre-emption at each of up to 40 consecutive steps. "
+        "of schedules: PCT-style 1-3 pre-emptions at uniformly drawn global library-line steps, a sweep window placing one pre-emption at each of up to 40 consecutive steps, and overlap "
+        "schedules (the first thread is parked inside a library function, another thread runs until it is inside the same function, then back). "
         "evaluations = schedules executed. distinct_nontrivial = distinct (definition-shape digest, decision log) pairs with "
         ">=1 pre-emption taken at a library line while the pre-empted thread was inside a library call.")
 RULE2 = "distinct library file:function:line locations at which a pre-emption was actually taken"
@@ -42,9 +43,16 @@ def gen_case(rng: random.Random, tier: str):
     defs = g.build()
     nthreads = rng.randint(2, 4)
     threads = []
+
+    def has_ptr(sd):
+        return any(f["ptr"] or (f["inline"] is not None and has_ptr(f["inline"])) for f in sd["fields"])
+
+    ptrs = any(has_ptr(sd) for sd in defs["structs"])
     for t in range(nthreads):
         ops = ["parse"]
-        if rng.random() < 0.5:
+        if ptrs and rng.random() < 0.7:
+            ops.append("deref")  # lazy dereference is deferred I/O on the thread's own stream through SHARED pointer types
+        elif rng.random() < 0.5:
             ops.append(rng.choice(["dumps", "deref", "parse2"]))
         threads.append({"data_seed": rng.getrandbits(32), "data": None, "ops": ops, "root": rng.randrange(8)})
     return {"cfg": cfg, "defs": defs, "threads": threads, "sched_seed": rng.getrandbits(32),
@@ -144,9 +152,10 @@ def run_case(case, stats):
     lib_root = REPO + "/dissect/cstruct"
     shape = gen.shape_digest(case["defs"])
 
-    def execute(preempts):
+    def execute(preempts, record=False):
         cs2, root2 = _load(case)
         sch = Sched(n, preempts, lib_root, trace_enum=case["trace_enum"], opcodes=case["opcodes"], order=case["order"])
+        sch.record = record
         scripts = [make_script(_root_of(cs2, case, th), th) for th in case["threads"]]
         try:
             got = sch.run(scripts)
@@ -168,7 +177,7 @@ def run_case(case, stats):
         return got, sch
 
     # non-preemptive threaded run: measures the step count schedules are drawn over
-    got, sch0 = execute([])
+    got, sch0 = execute([], record=case["schedules"] is None)
     N = sch0.step
     for i in range(n):
         if got[i] != expected[i]:
@@ -186,6 +195,27 @@ def run_case(case, stats):
         w0 = srng.randrange(1, N + 1)
         for s in range(w0, min(N, w0 + (40 if case["n_sched"] <= 24 else 120)) + 1):
             scheds.append([[s, srng.getrandbits(8)], [s + srng.randrange(1, 60), srng.getrandbits(8)]])
+        # overlap schedules: park the first thread inside a library function F, run another thread until it is inside the
+        # same F, switch back - the generic shape of a race on scratch state that F keeps outside its own frame
+        order = case["order"]
+        A = order[0]
+        per = {}
+        for tid, key in sch0.trace:
+            per.setdefault(tid, []).append(key)
+        ta = per.get(A, [])
+        n_over = 10 if case["n_sched"] <= 24 else 40
+        for _ in range(n_over):
+            B = srng.choice([t for t in order if t != A])
+            tb = per.get(B, [])
+            common = sorted(set(ta) & set(tb))
+            if not common:
+                break
+            F = srng.choice(common)
+            a = srng.choice([i for i, k in enumerate(ta) if k == F])
+            b = srng.choice([i for i, k in enumerate(tb) if k == F])
+            rB = [t for t in order if t != A].index(B)
+            rA = [t for t in order if t != B].index(A)
+            scheds.append([[a + 1, rB], [a + b + 2, rA]])
         case["schedules"] = scheds
     for si, preempts in enumerate(case["schedules"]):
         got, sch = execute(preempts)
